@@ -131,6 +131,23 @@ pub struct Shared {
 
 static SHARED: AtomicPtr<Shared> = AtomicPtr::new(std::ptr::null_mut());
 
+/// In-process mode (E2, libFuzzer): verdicts are raised as panics instead of
+/// ending the process.
+pub static INPROC: std::sync::atomic::AtomicBool = std::sync::atomic::AtomicBool::new(false);
+
+pub struct ViolationPanic {
+    pub view: u32,
+    pub enabled: bool,
+    pub msg: String,
+}
+
+pub struct EndCasePanic;
+
+#[inline]
+pub fn inproc() -> bool {
+    INPROC.load(Ordering::Relaxed)
+}
+
 #[inline]
 pub fn shared() -> &'static mut Shared {
     unsafe { &mut *SHARED.load(Ordering::Relaxed) }
@@ -194,6 +211,9 @@ pub fn violate_any(view: View, also: u32, msg: &str) -> ! {
     let full = format!("op#{} [{}] {}", sh.op, View::name(view as u32), msg);
     set_msg(&full);
     sh.done = 1;
+    if inproc() {
+        std::panic::panic_any(ViolationPanic { view: view as u32, enabled, msg: full });
+    }
     unsafe { libc::_exit(10) }
 }
 
@@ -204,6 +224,9 @@ pub fn end_known_finding(id: u32, msg: &str) -> ! {
     sh.kf_id = id;
     set_msg(msg);
     sh.done = 1;
+    if inproc() {
+        std::panic::panic_any(EndCasePanic);
+    }
     unsafe { libc::_exit(0) }
 }
 
